@@ -134,16 +134,16 @@ package json
 // C12: the result is a slice allocated in this call. C03: exactly the trailer is trimmed.
 //@ func marshal(v, optFuncs) (res, err)
 //@   props C11 C12 C03
-//@   callassert[C11] encode: poolfree(ctx.Option.Flag) && poolfree(ctx.Option.Context)
+//@   callassert[C11] encode: poolfree(ctx.Option.Flag) && poolfree(ctx.Option.Context) && poolfree(ctx.Option.DebugOut) && poolfree(ctx.Option.DebugDOTOut)
 //@   ghost tl := len(buf)
 //@   ghost tp := ptrOf(buf)
 //@   ensures err == nil ==> freshAlloc(res) && len(res) == tl && forall k :: 0 <= k && k < tl ==> res[k] == M(tp + k)
 //@   assigns all
-//@   loop 1: invariant -1 <= rangeindex && rangeindex < len(optFuncs) && ctx.Option != nil && poolfree(ctx.Option.Flag)
+//@   loop 1: invariant -1 <= rangeindex && rangeindex < len(optFuncs) && ctx.Option != nil && poolfree(ctx.Option.Flag) && poolfree(ctx.Option.DebugOut) && poolfree(ctx.Option.DebugDOTOut)
 
 //@ func marshalNoEscape(v) (res, err)
 //@   props C11 C12 C03
-//@   callassert[C11] encodeNoEscape: poolfree(ctx.Option.Flag) && poolfree(ctx.Option.Context)
+//@   callassert[C11] encodeNoEscape: poolfree(ctx.Option.Flag) && poolfree(ctx.Option.Context) && poolfree(ctx.Option.DebugOut) && poolfree(ctx.Option.DebugDOTOut)
 //@   ghost tl := len(buf)
 //@   ghost tp := ptrOf(buf)
 //@   ensures err == nil ==> freshAlloc(res) && len(res) == tl && forall k :: 0 <= k && k < tl ==> res[k] == M(tp + k)
@@ -151,33 +151,33 @@ package json
 
 //@ func marshalContext(ctx, v, optFuncs) (res, err)
 //@   props C11 C12 C03
-//@   callassert[C11] encode: poolfree(rctx.Option.Flag) && poolfree(rctx.Option.Context) && rctx.Option.Context == ctx
+//@   callassert[C11] encode: poolfree(rctx.Option.Flag) && poolfree(rctx.Option.Context) && rctx.Option.Context == ctx && poolfree(rctx.Option.DebugOut) && poolfree(rctx.Option.DebugDOTOut)
 //@   ghost tl := len(buf)
 //@   ghost tp := ptrOf(buf)
 //@   ensures err == nil ==> freshAlloc(res) && len(res) == tl && forall k :: 0 <= k && k < tl ==> res[k] == M(tp + k)
 //@   assigns all
-//@   loop 1: invariant -1 <= rangeindex && rangeindex < len(optFuncs) && rctx.Option != nil && poolfree(rctx.Option.Flag) && rctx.Option.Context == ctx
+//@   loop 1: invariant -1 <= rangeindex && rangeindex < len(optFuncs) && rctx.Option != nil && poolfree(rctx.Option.Flag) && rctx.Option.Context == ctx && poolfree(rctx.Option.DebugOut) && poolfree(rctx.Option.DebugDOTOut)
 
 //@ func marshalIndent(v, prefix, indent, optFuncs) (res, err)
 //@   props C11 C12 C03
-//@   callassert[C11] encodeIndent: poolfree(ctx.Option.Flag) && poolfree(ctx.Option.Context)
+//@   callassert[C11] encodeIndent: poolfree(ctx.Option.Flag) && poolfree(ctx.Option.Context) && poolfree(ctx.Option.DebugOut) && poolfree(ctx.Option.DebugDOTOut)
 //@   ghost tl := len(buf)
 //@   ghost tp := ptrOf(buf)
 //@   ensures err == nil ==> freshAlloc(res) && len(res) == tl && forall k :: 0 <= k && k < tl ==> res[k] == M(tp + k)
 //@   assigns all
-//@   loop 1: invariant -1 <= rangeindex && rangeindex < len(optFuncs) && ctx.Option != nil && poolfree(ctx.Option.Flag)
+//@   loop 1: invariant -1 <= rangeindex && rangeindex < len(optFuncs) && ctx.Option != nil && poolfree(ctx.Option.Flag) && poolfree(ctx.Option.DebugOut) && poolfree(ctx.Option.DebugDOTOut)
 
 //@ func (*Encoder).encodeWithOption(e, ctx, v, optFuncs) (err)
 //@   props C11 C03
 //@   requires e != nil && ctx != nil && ctx.Option != nil
-//@   requires poolfree(ctx.Option.Flag) && poolfree(ctx.Option.Context)
-//@   callassert[C11] encode: poolfree(ctx.Option.Flag) && poolfree(ctx.Option.Context)
-//@   callassert[C11] encodeIndent: poolfree(ctx.Option.Flag) && poolfree(ctx.Option.Context)
+//@   requires poolfree(ctx.Option.Flag) && poolfree(ctx.Option.Context) && poolfree(ctx.Option.DebugOut) && poolfree(ctx.Option.DebugDOTOut)
+//@   callassert[C11] encode: poolfree(ctx.Option.Flag) && poolfree(ctx.Option.Context) && poolfree(ctx.Option.DebugOut) && poolfree(ctx.Option.DebugDOTOut)
+//@   callassert[C11] encodeIndent: poolfree(ctx.Option.Flag) && poolfree(ctx.Option.Context) && poolfree(ctx.Option.DebugOut) && poolfree(ctx.Option.DebugDOTOut)
 // the interpreters do not touch the Encoder
 //@   postassume encode: e.enabledIndent == old(e.enabledIndent)
 //@   postassume encodeIndent: e.enabledIndent == old(e.enabledIndent)
 //@   assigns all
-//@   loop 1: invariant -1 <= rangeindex && rangeindex < len(optFuncs) && ctx.Option != nil && poolfree(ctx.Option.Flag) && poolfree(ctx.Option.Context) && e.enabledIndent == old(e.enabledIndent)
+//@   loop 1: invariant -1 <= rangeindex && rangeindex < len(optFuncs) && ctx.Option != nil && poolfree(ctx.Option.Flag) && poolfree(ctx.Option.Context) && e.enabledIndent == old(e.enabledIndent) && poolfree(ctx.Option.DebugOut) && poolfree(ctx.Option.DebugDOTOut)
 
 //@ func (*Encoder).EncodeWithOption(e, v, optFuncs) (err)
 //@   props C11
